@@ -92,7 +92,9 @@ def make_fn(sig, log, excluded=None, annotations=None, is_async=False):
             parts.append('*')
             star = True
         ann = ': A%d' % i if annotations else ''
-        if dflt in ('LIST', 'DICT'):
+        if dflt == 'NONE':
+            parts.append(NAMES[i] + ann + ' = None')
+        elif dflt in ('LIST', 'DICT'):
             parts.append(NAMES[i] + ann + (' = [7]' if dflt == 'LIST' else ' = {"k": 7}'))
         else:
             parts.append(NAMES[i] + ann + (' = "D_%s"' % NAMES[i] if dflt else ''))
@@ -274,6 +276,8 @@ def adapter_value(ann, v):
 
 def gen_pd(ctx):
     for coerce in (True, False):
+        for ann in ANNS:
+            yield dict(part='pd', anns=(ann,), coerce=coerce, sig=(('pk', 'NONE'),), excluded=None)
         yield dict(part='pd', anns=('listint',), coerce=coerce, sig=(('pk', 'LIST'),), excluded=None)
         yield dict(part='pd', anns=('dictstrint', 'int'), coerce=coerce, sig=(('pk', 'DICT'), ('ko', True)), excluded=None)
     for ann in ANNS:
@@ -331,7 +335,7 @@ def run_pd(case, rec):
                             break
                         want_seen[name] = a[1] if case['coerce'] else bound[name]
                     else:
-                        want_seen[name] = {'LIST': [7], 'DICT': {'k': 7}}.get(sig[i][1], 'D_%s' % name)
+                        want_seen[name] = {'LIST': [7], 'DICT': {'k': 7}, 'NONE': None}.get(sig[i][1], 'D_%s' % name)
             del log[:]
             try:
                 r = dispatch(d, disp == 'async', json.dumps({'jsonrpc': '2.0', 'id': 1, 'method': 'f', 'params': inp}))
@@ -475,6 +479,7 @@ def gen_multi(ctx):
             yield dict(part='multi', disp=disp, order=order)
         for v in ('base', 'js', 'pd'):
             yield dict(part='viewpred', disp=disp, validator=v)
+            yield dict(part='viewpred', disp=disp, validator=v, view_context='a')
         for first in ('users', 'posts'):
             for coerce in (True, False):
                 yield dict(part='samename', disp=disp, first=first, coerce=coerce)
@@ -501,14 +506,18 @@ def run_multi(case, rec):
 
     def build_d4():
         return vjs.JsonSchemaValidator(cls=_js.Draft4Validator).validate(schema=dict(schema))(mk('d4'))
-    fns = [build_strict(), build_d4(), build_plain()] if case['order'] == 'strict-first' else [build_plain(), build_d4(), build_strict()]
+    def build_fallback():
+        # a validator constructed with a permissive default schema; the method brings its own, stricter one
+        return vjs.JsonSchemaValidator(schema={'type': 'object'}).validate(schema=dict(schema, properties={'h': {'type': 'integer'}}))(mk('fallback'))
+    fns = [build_strict(), build_d4(), build_plain(), build_fallback()] if case['order'] == 'strict-first' else [build_fallback(), build_plain(), build_d4(), build_strict()]
     d = pjrpc.server.AsyncDispatcher() if is_async else pjrpc.server.Dispatcher()
     for f in fns:
         d.add(f, name=f.__name__)
     obs = []
     # (method, argument) -> executed?
     table = [('plain', 'not-an-ip', True), ('strict', 'not-an-ip', False), ('strict', '1.2.3.4', True), ('plain', '1.2.3.4', True),
-             ('d4', 'not-an-ip', True), ('plain', 5, False), ('strict', 5, False), ('plain', 'not-an-ip', True)]
+             ('d4', 'not-an-ip', True), ('plain', 5, False), ('strict', 5, False), ('plain', 'not-an-ip', True),
+             ('fallback', 5, True), ('fallback', 'x', False)]
     for name, arg, accept in table:
         del log[:]
         r = dispatch(d, is_async, json.dumps({'jsonrpc': '2.0', 'id': 1, 'method': name, 'params': [arg]}))
@@ -594,7 +603,10 @@ def run_viewpred(case, rec):
     else:
         v.validate(View.vm)
     d = pjrpc.server.AsyncDispatcher() if is_async else pjrpc.server.Dispatcher()
-    d.registry.view(View)
+    if case.get('view_context'):
+        d.registry.view(View, context=case['view_context'])
+    else:
+        d.registry.view(View)
     typed = case['validator'] != 'base'
     table = [([1], True, dict(a=1, b=2)), ([1, 3], True, dict(a=1, b=3)), ({'a': 1}, True, dict(a=1, b=2)), ({'a': 1, 'b': 4}, True, dict(a=1, b=4)),
              ([], False, None), ({'b': 1}, False, None), ({'a': 1, 'dep': 'x'}, False, None), ([1, 2, 'x'], False, None),
@@ -656,7 +668,7 @@ def replay(doc):
     from mc.core import Recorder, jdump
     rec = Recorder()
     c = doc['case']
-    case = {k: c[k] for k in ('part', 'sig', 'frags', 'required', 'addl', 'excluded', 'anns', 'coerce', 'validator', 'first', 'disp', 'ann', 'order') if k in c}
+    case = {k: c[k] for k in ('part', 'sig', 'frags', 'required', 'addl', 'excluded', 'anns', 'coerce', 'validator', 'first', 'disp', 'ann', 'order', 'view_context') if k in c}
     run_case(case, rec)
     vs = [v for v in rec.violations if v['case'].get('input') == c.get('input') and v['case']['disp'] == c['disp']] or rec.violations
     for v in vs[:5]:
